@@ -909,6 +909,8 @@ func genTagContextGrid(p func(string, ...any)) {
 			{wInt(1), wInt(-7), wInt(2), wArr(wInt(1), t(wInt(4))), wInt(4), wBstr([]byte{0x6b})},
 			{wInt(1), wInt(-7), wInt(2), wArr(wInt(1), t(wInt(4)), wInt(3)), wInt(3), wInt(0), wInt(4), wBstr([]byte{0x6b})},
 			{wInt(1), wInt(-7), wInt(258), t(wInt(-16))},
+			{wInt(1), wInt(-7), wInt(258), wInt(-16), wInt(259), t(wTstr("a/b"))},
+			{wInt(1), wInt(-7), wInt(258), wInt(-16), wInt(260), t(wTstr("urn:x"))},
 			{wInt(1), wInt(-7), t(wInt(4)), wBstr([]byte{0x6b})},
 			{wInt(1), wInt(-7), wInt(16), t(wTstr("a/b"))},
 		}
@@ -922,6 +924,8 @@ func genTagContextGrid(p func(string, ...any)) {
 			// … and verified: a verifier that accepts anything must not be reached under an alg
 			// that is not the plain integer on the wire
 			p("v1 t %s - T:-7:1 -", hexs(wTag(18, wArr(pb.clone(), wMap(), wBstr(payload), sigB.clone())).enc()))
+			// … and as a hash envelope (258 / 259 / 260 are type-checked there)
+			p("hev %s T:-7:1", hexs(wTag(18, wArr(pb.clone(), wMap(), wBstr(make([]byte, 32)), sigB.clone())).enc()))
 		}
 		for _, sb := range sibs {
 			for _, tg := range targets {
@@ -1159,6 +1163,18 @@ func genEncGrid(p func(string, ...any)) {
 		p("enc key K(4;-;0;-;-;{i64:-1=b:01,%s=i64:1}) !rt", lbl)
 	}
 	p("enc ph {u64:9223372036854775807=i64:1} !rt")
+	// one COSE_Key parameter label under two Go integer types, one of them int64 (which needs no
+	// conversion): refused whatever order Go's map iteration visits them in — many lines, because a
+	// check that depends on the order is wrong only some of the time
+	for _, lbl := range []int64{-70001, -5, 10, 99, 1000, -1000000} {
+		for _, sp := range []string{"i", "i32", "i16", "u64"} {
+			if (sp == "u64" && lbl < 0) || (sp == "i16" && (lbl > 32767 || lbl < -32768)) {
+				continue
+			}
+			p("enc key K(4;-;0;-;-;{i64:-1=b:01,i64:%d=i64:1,%s:%d=i64:2})", lbl, sp, lbl)
+			p("enc key K(4;-;0;-;-;{i64:-1=b:01,%s:%d=i64:2,i64:%d=i64:1})", sp, lbl, lbl)
+		}
+	}
 	targets := []int{22, 23, 24, 25, 254, 255, 256, 257, 65535, 65536}
 	for _, t := range targets {
 		// protected map {1: -7, 4: h'00…'} of exactly t bytes
